@@ -62,11 +62,18 @@ func (c *decoratorController) callHook(
 		}
 	}
 
+	// Drop null entries: every later step dereferences the children.
+	children := make([]*unstructured.Unstructured, 0, len(response.Attachments))
 	for _, child := range response.Attachments {
-		if child != nil && child.GetNamespace() == "" {
+		if child == nil {
+			continue
+		}
+		if child.GetNamespace() == "" {
 			child.SetNamespace(parent.GetNamespace())
 		}
+		children = append(children, child)
 	}
+	response.Attachments = children
 
 	return &response, nil
 }
